@@ -4,16 +4,20 @@
    Part "broker" (broker/ipc.go ProxyPolls, broker/broker.go
    CheckProxyRelayPattern).  A poll carries an AcceptedRelayPattern or none
    (legacy proxy: the operator's presumed pattern stands in for it).  The
-   broker is configured with an allowed pattern.  The contract is
+   broker is configured with an allowed pattern and handles a sequence of
+   polls.  The contract is
 
      MustReject(allowed, presumed, pp) ==
          the effective pattern of the poll is NOT a superset of `allowed`
 
    ("superset" as judged by Matcher!IsSupersetOf; Matcher!JudgedIsSemantic
    shows that over all strings this is the semantic relation, so the property
-   sentence has one meaning).  The poll handler is modelled as a two-step
-   machine arrived -> (rejected | registered) and TLC checks
+   sentence has one meaning).  The poll handler is modelled as a machine
+   idle -> arrived -> (rejected | registered) -> idle over a sequence of polls
+   on one context and TLC checks
 
+     HistoryIndependent        the verdict on a poll depends on (allowed,
+                               presumed, poll) only, not on earlier polls
      RejectedNeverRegistered   a poll that must be rejected is never registered
      ExplicitReject            and its response is "incorrect relay pattern"
      RegisteredAcceptsAllowed  (consequence of the LAW) a registered proxy
@@ -39,21 +43,43 @@
 EXTENDS Matcher
 
 CONSTANTS
-  PMode,       \* "broker" | "proxy"
-  ProxyPats    \* patterns used for the proxy cases (set of rules)
+  PMode,       \* "broker" (one poll per context) | "history" (a sequence of polls on one context) | "proxy"
+  ProxyPats,   \* patterns used for the proxy cases (set of rules)
+  CacheKey,    \* "none" | "effective" | "raw": what a verdict memo of the broker is keyed by (see below)
+  HistRule,    \* history mode: maximum length of the configured / polled rules
+  HistLen      \* history mode: number of polls processed by one context
 
 VARIABLES
-  allowed, presumed, pp,          \* broker case: configuration and the poll's pattern
+  allowed, presumed,              \* broker configuration
+  todo, pp,                       \* polls still to arrive on this context; the poll being handled
   pc, resp,                       \* poll handler machine
+  hist,                           \* what happened so far: sequence of [poll, rejected, resp]
+  cache,                          \* verdict memo: set of [k |-> key, v |-> rejected?]
   pattern, nontls, url            \* proxy case
 
-pvars == <<allowed, presumed, pp, pc, resp, pattern, nontls, url>>
-allvars == <<p, q, h, ph, allowed, presumed, pp, pc, resp, pattern, nontls, url>>
+allvars == <<p, q, h, ph, allowed, presumed, todo, pp, pc, resp, hist, cache, pattern, nontls, url>>
+bconst == <<allowed, presumed, pattern, nontls, url, p, q, h, ph>>
 
 -----------------------------------------------------------------------------
-(* Broker. *)
+(* Broker.  One BrokerContext handles a SEQUENCE of polls.  The property's
+   second sentence quantifies over histories: whatever was polled before, a
+   poll whose effective pattern is not a superset of the allowed pattern is
+   rejected.  So the verdict on a poll must be a function of
+   (allowed, presumed, poll) only - HistoryIndependent.
 
-PollPatterns == {[present |-> FALSE, value |-> <<>>]} \cup {[present |-> TRUE, value |-> r] : r \in Rules}
+   The code as it is keeps no state between polls (CacheKey = "none").  A memo
+   of verdicts is an admissible optimisation exactly when its key determines
+   the effective pattern (CacheKey = "effective"); keyed by the raw pattern
+   string of the poll (CacheKey = "raw") a legacy poll - no pattern, raw "" -
+   shares its entry with a poll that sends the empty pattern, and TLC finds the
+   history <<sends "", legacy>> that admits a legacy proxy whose presumed
+   pattern is not a superset (PolicyMC_history_raw.cfg must FAIL; the check
+   uses it as a guard against a vacuous invariant). *)
+
+NoPoll == [present |-> FALSE, value |-> <<"-">>]
+PollsOver(R) == {[present |-> FALSE, value |-> <<>>]} \cup {[present |-> TRUE, value |-> r] : r \in R}
+PollPatterns == PollsOver(Rules)
+HistRules == Strs(RuleAlphabet, HistRule)
 
 Effective(pres, x) == IF x.present THEN x.value ELSE pres
 
@@ -61,29 +87,63 @@ MustReject(allw, pres, x) == ~IsSupersetOf(New(Effective(pres, x)), New(allw))
 
 NoURL == [form |-> "empty", scheme |-> "", user |-> "", host |-> <<>>, port |-> "", text |-> ""]
 
-InitBroker ==
-  /\ PMode = "broker"
-  /\ allowed \in Rules /\ presumed \in Rules /\ pp \in PollPatterns
-  /\ pc = "arrived" /\ resp = "-"
+BrokerIdle ==
+  /\ pp = NoPoll /\ pc = "idle" /\ resp = "-" /\ hist = <<>> /\ cache = {}
   /\ pattern = <<>> /\ nontls = FALSE /\ url = NoURL
   /\ p = None /\ q = None /\ h = None /\ ph = "-"
 
+InitBroker ==
+  /\ PMode = "broker"
+  /\ allowed \in Rules /\ presumed \in Rules /\ todo \in [1..1 -> PollPatterns]
+  /\ BrokerIdle
+
+InitHistory ==
+  /\ PMode = "history"
+  /\ allowed \in HistRules /\ presumed \in HistRules /\ todo \in [1..HistLen -> PollsOver(HistRules)]
+  /\ BrokerIdle
+
+Arrive ==
+  /\ pc = "idle" /\ todo # <<>>
+  /\ pp' = Head(todo) /\ todo' = Tail(todo) /\ pc' = "arrived"
+  /\ UNCHANGED <<resp, hist, cache>> /\ UNCHANGED bconst
+
+Key(x) == IF CacheKey = "raw" THEN x.value ELSE Effective(presumed, x)
+Cached(k) == CacheKey # "none" /\ \E e \in cache : e.k = k
+Verdict(x) == IF Cached(Key(x)) THEN (CHOOSE e \in cache : e.k = Key(x)).v ELSE MustReject(allowed, presumed, x)
+Remember(x) == IF CacheKey = "none" \/ Cached(Key(x)) THEN cache ELSE cache \cup {[k |-> Key(x), v |-> Verdict(x)]}
+
 (* ProxyPolls: the pattern check comes before RequestOffer (registration). *)
 Reject ==
-  /\ pc = "arrived" /\ MustReject(allowed, presumed, pp)
+  /\ pc = "arrived" /\ Verdict(pp)
   /\ pc' = "rejected" /\ resp' = "incorrect relay pattern"
-  /\ UNCHANGED <<allowed, presumed, pp, pattern, nontls, url, p, q, h, ph>>
+  /\ hist' = Append(hist, [poll |-> pp, rejected |-> TRUE, resp |-> "incorrect relay pattern"])
+  /\ cache' = Remember(pp)
+  /\ UNCHANGED <<todo, pp>> /\ UNCHANGED bconst
 
 Register ==
-  /\ pc = "arrived" /\ ~MustReject(allowed, presumed, pp)
+  /\ pc = "arrived" /\ ~Verdict(pp)
   /\ pc' = "registered" /\ resp' = "-"
-  /\ UNCHANGED <<allowed, presumed, pp, pattern, nontls, url, p, q, h, ph>>
+  /\ hist' = Append(hist, [poll |-> pp, rejected |-> FALSE, resp |-> "-"])
+  /\ cache' = Remember(pp)
+  /\ UNCHANGED <<todo, pp>> /\ UNCHANGED bconst
 
-RejectedNeverRegistered == pc = "registered" => ~MustReject(allowed, presumed, pp)
-ExplicitReject == MustReject(allowed, presumed, pp) => (pc # "arrived" => (pc = "rejected" /\ resp = "incorrect relay pattern"))
+(* the handler goroutine of this poll is out of the way (answered, or parked
+   waiting for a client); the context takes the next poll *)
+NextPoll ==
+  /\ pc \in {"rejected", "registered"} /\ pc' = "idle"
+  /\ UNCHANGED <<todo, pp, resp, hist, cache>> /\ UNCHANGED bconst
+
+HistoryIndependent ==
+  \A i \in DOMAIN hist : hist[i].rejected = MustReject(allowed, presumed, hist[i].poll)
+RejectedNeverRegistered ==
+  /\ pc = "registered" => ~MustReject(allowed, presumed, pp)
+  /\ \A i \in DOMAIN hist : ~hist[i].rejected => ~MustReject(allowed, presumed, hist[i].poll)
+ExplicitReject ==
+  \A i \in DOMAIN hist :
+    MustReject(allowed, presumed, hist[i].poll) => (hist[i].rejected /\ hist[i].resp = "incorrect relay pattern")
 RegisteredAcceptsAllowed ==
-  pc = "registered" =>
-    \A x \in Hosts : IsMember(New(allowed), x) => IsMember(New(Effective(presumed, pp)), x)
+  \A i \in DOMAIN hist : ~hist[i].rejected =>
+    \A x \in Hosts : IsMember(New(allowed), x) => IsMember(New(Effective(presumed, hist[i].poll)), x)
 
 -----------------------------------------------------------------------------
 (* Proxy. *)
@@ -175,23 +235,27 @@ DefaultProxyPats ==
 InitProxy ==
   /\ PMode = "proxy"
   /\ pattern \in ProxyPats /\ nontls \in BOOLEAN /\ url \in URLs(pattern)
-  /\ allowed = <<>> /\ presumed = <<>> /\ pp = [present |-> FALSE, value |-> <<>>]
-  /\ pc = "-" /\ resp = "-"
+  /\ allowed = <<>> /\ presumed = <<>> /\ todo = <<>> /\ pp = NoPoll
+  /\ pc = "-" /\ resp = "-" /\ hist = <<>> /\ cache = {}
   /\ p = None /\ q = None /\ h = None /\ ph = "-"
 
 AcceptedNeverForbidden == PMode = "proxy" => (Accepted(pattern, nontls, url) => ~Forbidden(pattern, nontls, url))
 
 -----------------------------------------------------------------------------
-PInit == InitBroker \/ InitProxy
-PNext == Reject \/ Register
+PInit == InitBroker \/ InitHistory \/ InitProxy
+PNext == Arrive \/ Reject \/ Register \/ NextPoll
 PStutter == UNCHANGED allvars
 PSpec == PInit /\ [][PNext]_allvars
 
+AnnPoll(x) == [present |-> x.present, value |-> x.value, reject |-> MustReject(allowed, presumed, x)]
+
 PEmit ==
   IF PMode = "broker"
-  THEN (pc = "arrived" =>
-          PrintT(ToJson([allowed |-> allowed, presumed |-> presumed, present |-> pp.present, value |-> pp.value,
-                         reject |-> MustReject(allowed, presumed, pp)])))
+  THEN PrintT(ToJson([allowed |-> allowed, presumed |-> presumed, present |-> todo[1].present, value |-> todo[1].value,
+                      reject |-> MustReject(allowed, presumed, todo[1])]))
+  ELSE IF PMode = "history"
+  THEN PrintT(ToJson([allowed |-> allowed, presumed |-> presumed, order |-> "tlc-history",
+                      polls |-> [i \in DOMAIN todo |-> AnnPoll(todo[i])]]))
   ELSE PrintT(ToJson([pattern |-> pattern, nontls |-> nontls, url |-> url.text,
                       class |-> Class(pattern, url),
                       hostname |-> Hostname(url),
